@@ -27,7 +27,7 @@ RULE = (
     "custom magic, export directory or XorEncoding; every version case. Distinct = distinct image bytes / argument tuple."
 )
 ASSUMPTIONS = [
-    "prepended bytes do not themselves contain a complete DOS header whose e_lfanew leads to a Machine word and matching optional-header magic (random bytes do so with probability ~2^-48 per offset)",
+    "prepended bytes do not themselves contain a complete DOS header whose e_lfanew (>= 64) leads to a Machine word with the matching SizeOfOptionalHeader (random bytes do so with probability ~2^-47 per offset)",
     "sections follow the fixed-size optional header (SizeOfOptionalHeader 224/240), as in every beacon stage",
     "an export timestamp of 0 counts as 'not present'",
 ]
